@@ -219,7 +219,8 @@ def gen(rng, i, tier):
     r = rng.random()
     if r < 0.45:
         kind, a, lim, why = invalid_case(rng)
-        case = {"mode": "invalid", "kind": kind, "args": a, "limits": lim, "why": why, "decoys": rng.random() < 0.4}
+        case = {"mode": "invalid", "kind": kind, "args": a, "limits": lim, "why": why, "decoys": rng.random() < 0.4,
+                "reuse_limits": rng.random() < 0.5}
         tabs = [z for (k, z) in TABLE_PARAMS if k == kind and isinstance(a.get(z), dict)]
         if tabs and rng.random() < 0.4:
             # a GOOD table on the same axes layout (2-D if the bad one is 2-D) to be accepted first through the same object
@@ -295,7 +296,15 @@ def run(ctx, case):
                                 ("Rectifier", {"vdrop": -v_}), ("PSwitch", {"rs": v_})):
                     H.call(ns.KINDS[k_], "decoy", **kw_)
             ctx.count("table_object", "decoys with the same numbers built first")
-        if case.get("reuse_object"):
+        if case.get("limits") is not None and case.get("reuse_limits"):
+            # the very dict object that now holds the malformed limits was accepted before with well-formed contents
+            obj = {k_: [0.0, 10.0] for k_ in case["limits"]}
+            H.call(ns.KINDS[kind], "X0", **dict(copy.deepcopy(case["args"]), limits=obj))
+            obj.clear()
+            obj.update(copy.deepcopy(case["limits"]))
+            st, r = H.call(ns.KINDS[kind], "X", **dict(copy.deepcopy(case["args"]), limits=obj))
+            ctx.count("table_object", "limits dict reused after in-place edit")
+        elif case.get("reuse_object"):
             # the very dict object that now holds the unacceptable table was accepted before, with good contents, and
             # then edited in place (a sweep over table values): every constructor call validates what it is given
             args = copy.deepcopy(case["args"])
